@@ -306,3 +306,10 @@ TEXT["C02"].update(
 TEXT["C17"].update(
     engine="verus+kani+bounded",
     level=TEXT["C17"]["level"] + " Bounded (engine B, real serialise_router_advertisement read back by an independent RFC 4861 option walker): captive-portal URLs of every length 0..=2050 (type 37, next multiple of 8, zero padding, nothing past 2038 octets), 510 DNS search lists, 0..=130 recursive DNS servers (split at 127).")
+
+TEXT["C16"].update(
+    engine="verus+kani+bounded",
+    level=TEXT["C16"]["level"] + " Bounded (engine B, real IpRateLimiter): hash_ip is deterministic (the assumption the Verus unit makes about std's hasher) and 2000 back-to-back requests from one address are granted at most 2 x (BURST + RATE x elapsed) tokens.")
+TEXT["C03"].update(
+    engine="verus+kani+bounded",
+    level=TEXT["C03"]["level"] + " 'TTLs only ever reduced': the cache lifetime is the smallest TTL of all three sections (Kani dns_ttl, bounded shapes), so the age subtracted never exceeds a TTL; the same on the real cache over insertion histories (engine B dns_cache).")
